@@ -175,28 +175,6 @@ func sameMultiset(expected, actual []Row, cols []string) bool {
 	return rec(0)
 }
 
-// subMultiset: every row of sub can be matched to a distinct row of super.
-func subMultiset(sub, super []Row, cols []string) bool {
-	used := make([]bool, len(super))
-	var rec func(i int) bool
-	rec = func(i int) bool {
-		if i == len(sub) {
-			return true
-		}
-		for j, a := range super {
-			if !used[j] && rowMatches(sub[i], a, cols) {
-				used[j] = true
-				if rec(i + 1) {
-					return true
-				}
-				used[j] = false
-			}
-		}
-		return false
-	}
-	return rec(0)
-}
-
 // ---------------------------------------------------------------------------
 // schema known to the model
 // ---------------------------------------------------------------------------
